@@ -9,6 +9,7 @@ import DTML.Render
 import DTML.Props.C08
 import DTML.Props.C02
 import DTML.Lemmas.IBlock
+import DTML.Lemmas.IfCompile
 set_option linter.unusedVariables false
 namespace DTML.Props.C09
 open DTML.Render
@@ -439,6 +440,92 @@ theorem gen_if_block_is_renderBlk (env : Env) (fuel : Nat) (conds : List (Src ×
 example : (match (GenRender.iBlockGen {} 5 (Lemmas.IBlock.encodeI [(.name "a".toList, [.lit "A".toList])] (some [.lit "B".toList]))
     { stack := [.dict [("a".toList, .int 1)]] }).1 with
     | .ok ps => decide (ps = [Piece.text "A".toList])
+    | _ => false) = true := by decide +kernel
+
+/-! ### How dtml-if / dtml-unless are compiled: the constructors of the source, translated on every run
+
+`GenIfCompile.ifInitGen` / `unlessInitGen` / `elseInitGen` are regenerated on every run by translating `DT_If.If.__init__`,
+`Unless.__init__` and the class `Else` of /repo statement by statement (harness/trans_ifc.py): the first section's
+`parse_params` / `name_param`, `cond = name` or `cond = expr.eval`, the cells `[cond, section.blocks]`, the trailing section
+called `else` split off (`blocks[-1][0] == 'else'`, `del blocks[-1]`, its arguments may only repeat the name of the if tag),
+the loop over `blocks[1:]` (a further `else` is an error; every other section is an elif with its own condition, its two cells
+appended), the else part appended last, the code letter `'i'`.  They store exactly the cells (`encodeI`) of the conditional
+the model builds from the same sections (`Lemmas.IfCompile.ifParts` / `unlessParts`: the arguments of `Blk.cond` /
+`Blk.unless_`), and fail with the same ParseError, for every list of sections and every expression compiler `ev`. -/
+theorem gen_if_compile_is_model (ev : Text → Expr) (secs : List (Parse.Section Blk)) :
+    GenIfCompile.ifInitGen ev secs =
+      (match Lemmas.IfCompile.ifParts ev secs with
+       | .error e => .error e
+       | .ok (conds, els) => .ok ("i", Lemmas.IBlock.encodeI conds els)) :=
+  Lemmas.IfCompile.ifInit_eq ev secs
+
+theorem gen_unless_compile_is_model (ev : Text → Expr) (secs : List (Parse.Section Blk)) :
+    GenIfCompile.unlessInitGen ev secs =
+      (match Lemmas.IfCompile.unlessParts ev secs with
+       | .error e => .error e
+       | .ok (src, body) => .ok ("i", Lemmas.IBlock.encodeI [(src, [])] (some body))) :=
+  Lemmas.IfCompile.unlessInit_eq ev secs
+
+/-- the stand-alone `dtml-else NAME` block of the old documentation is dtml-unless -/
+theorem gen_else_compile_is_model (ev : Text → Expr) (secs : List (Parse.Section Blk)) :
+    GenIfCompile.elseInitGen ev secs = GenIfCompile.unlessInitGen ev secs := rfl
+
+/-- compile, then render - both as translated from the source - is `renderBlk` on the block the model builds from the
+sections: the tie between the dtml-if of a template and the `.cond` the theorems of this file are stated about -/
+theorem gen_if_compile_renders_as_model (ev : Text → Expr) (secs : List (Parse.Section Blk)) (b : Blk)
+    (hb : Lemmas.IfCompile.ifBlock ev secs = .ok b) :
+    ∃ conds els cells, b = .cond conds els ∧ GenIfCompile.ifInitGen ev secs = .ok ("i", cells) ∧
+      ∀ (env : Env) (fuel : Nat) (st : St),
+        Lemmas.IBlock.notOom (condLoop env fuel conds els { st with stack := .dict [] :: st.stack }).1 →
+        GenRender.iBlockGen env fuel cells st = renderBlk env (fuel + 1) b st := by
+  rw [Lemmas.IfCompile.ifBlock] at hb
+  have hg := gen_if_compile_is_model ev secs
+  cases hp : Lemmas.IfCompile.ifParts ev secs with
+  | error e => rw [hp] at hb; cases hb
+  | ok r =>
+    obtain ⟨conds, els⟩ := r
+    rw [hp] at hb hg
+    simp only [Except.ok.injEq] at hb
+    subst hb
+    exact ⟨conds, els, _, rfl, hg, fun env fuel st h => gen_if_block_is_renderBlk env fuel conds els st h⟩
+
+theorem gen_unless_compile_renders_as_model (ev : Text → Expr) (secs : List (Parse.Section Blk)) (b : Blk)
+    (hb : Lemmas.IfCompile.unlessBlock ev secs = .ok b) :
+    ∃ src body cells, b = .unless_ src body ∧ GenIfCompile.unlessInitGen ev secs = .ok ("i", cells) ∧
+      ∀ (env : Env) (fuel : Nat) (st : St),
+        Lemmas.IBlock.notOom (condLoop env fuel [(src, [])] (some body) { st with stack := .dict [] :: st.stack }).1 →
+        GenRender.iBlockGen env fuel cells st = renderBlk env (fuel + 1) b st := by
+  rw [Lemmas.IfCompile.unlessBlock] at hb
+  have hg := gen_unless_compile_is_model ev secs
+  cases hp : Lemmas.IfCompile.unlessParts ev secs with
+  | error e => rw [hp] at hb; cases hb
+  | ok r =>
+    obtain ⟨src, body⟩ := r
+    rw [hp] at hb hg
+    simp only [Except.ok.injEq] at hb
+    subst hb
+    refine ⟨src, body, _, rfl, hg, fun env fuel st h => ?_⟩
+    rw [gen_if_block_is_model env fuel [(src, [])] (some body) st h]
+    simp only [renderBlk]
+
+/-- non-vacuity: `<dtml-if a>A<dtml-elif "b">B<dtml-else>C</dtml-if>` compiles to five cells after the code `'i'`;
+two else sections are the ParseError of the source; an else tag may repeat the name of its if tag, and no other -/
+example : (match GenIfCompile.ifInitGen (fun _ => .lit (.bool true))
+      [⟨"if", "a".toList, [.lit "A".toList]⟩, ⟨"elif", "\"b\"".toList, [.lit "B".toList]⟩, ⟨"else", [], [.lit "C".toList]⟩] with
+    | .ok (code, [.cond (.name n), .body _, .cond (.expr _), .body _, .body _]) => code == "i" && n == "a".toList
+    | _ => false) = true := by decide +kernel
+example : (match GenIfCompile.ifInitGen (fun _ => .lit (.bool true))
+      [⟨"if", "a".toList, []⟩, ⟨"else", [], []⟩, ⟨"else", [], []⟩] with
+    | .error e => e.msg == "more than one else tag for a single if tag"
+    | _ => false) = true := by decide +kernel
+example : (match GenIfCompile.ifInitGen (fun _ => .lit (.bool true)) [⟨"if", "a".toList, []⟩, ⟨"else", "b".toList, []⟩] with
+    | .error e => e.msg == "name in else does not match if"
+    | _ => false) = true := by decide +kernel
+example : (match GenIfCompile.ifInitGen (fun _ => .lit (.bool true)) [⟨"if", "a".toList, []⟩, ⟨"else", "a".toList, []⟩] with
+    | .ok (_, cells) => cells.length == 3
+    | _ => false) = true := by decide +kernel
+example : (match GenIfCompile.unlessInitGen (fun _ => .lit (.bool true)) [⟨"unless", "a".toList, [.lit "A".toList]⟩] with
+    | .ok (code, [.cond (.name n), .body [], .body [_]]) => code == "i" && n == "a".toList
     | _ => false) = true := by decide +kernel
 
 end DTML.Props.C09
